@@ -322,8 +322,19 @@ func TestCheck(t *testing.T) {
 		// every scenario gets an equal share of what is left of the time budget
 		dl := deadline
 		if !deadline.IsZero() {
+			// remaining budget shared by weight: a bound-2 scenario gets 8 shares
+			w := func(s Scenario) int {
+				if s.Name == "slow-write" && s.Stop == "stop" && bound < 2 {
+					return 8
+				}
+				return 1
+			}
+			tot := 0
+			for _, rest := range scs[i:] {
+				tot += w(rest)
+			}
 			left := deadline.Sub(time.Now())
-			dl = time.Now().Add(left / time.Duration(len(scs)-i))
+			dl = time.Now().Add(left * time.Duration(w(sc)) / time.Duration(tot))
 		}
 		_ = start
 		b := bound
